@@ -8,14 +8,15 @@ class References:
 
     Parameters
     ----------
-    item : gfapy.Line or str
-    	GFA2 edge, segment, gap or group line to add.
+    item : gfapy.OrientedLine or str
+    	GFA2 edge, segment, gap or group line to add, with its orientation
+    	(e.g. "e1+").
     """
+    item = self._oriented_item(item)
     if not self.is_connected():
       self._add_item_to_unconnected_group(item, True)
     else:
       self._add_item_to_connected_group(item, True)
-      self.compute_induced_set() # check contiguity
 
   def prepend_item(self, item):
     """
@@ -23,46 +24,47 @@ class References:
 
     Parameters
     ----------
-    item : gfapy.Line or str
-    	GFA2 edge, segment, gap or group line to add.
+    item : gfapy.OrientedLine or str
+    	GFA2 edge, segment, gap or group line to add, with its orientation
+    	(e.g. "e1+").
     """
+    item = self._oriented_item(item)
     if not self.is_connected():
       self._add_item_to_unconnected_group(item, False)
     else:
       self._add_item_to_connected_group(item, False)
-      self.compute_induced_set() # check contiguity
 
   def rm_first_item(self):
     """
     Remove the first item from the group.
-
-    Parameters
-    ----------
-    item : str or gfapy.Line
-    	GFA2 edge, segment, gap or group line to remove.
     """
-    if not self.is_connected():
-      self.items = self.items[1:]
-    else:
-      self.items[0].update_reference(self, "paths")
-      self._delete_reference(self.items[0], "items")
-      self.compute_induced_set() # check contiguity
+    self._rm_item_at(0)
 
   def rm_last_item(self):
     """
     Remove the last item from the group.
-
-    Parameters
-    ----------
-    item : str or gfapy.Line
-    	GFA2 edge, segment, gap or group line to remove.
     """
-    if not self.is_connected():
-      self.items = self.items[0:-1]
-    else:
-      self.items[-1].update_reference(self, "paths")
-      self._delete_reference(self.items[-1], "items")
-      self.compute_induced_set() # check contiguity
+    self._rm_item_at(-1)
+
+  def _rm_item_at(self, index):
+    if len(self.items) == 0:
+      raise gfapy.NotFoundError(
+        "Line: {}\n".format(self)+"The group has no items")
+    item = self.items.pop(index)
+    if self.is_connected() and isinstance(item.line, gfapy.Line):
+      item.line._delete_reference(self, "paths")
+      item.line._disconnect_if_unreferenced_virtual()
+
+  def _oriented_item(self, item):
+    if isinstance(item, gfapy.OrientedLine):
+      return item
+    if isinstance(item, str):
+      return gfapy.Field._parse_gfa_field(item, "oriented_identifier_gfa2",
+                                          safe = True)
+    raise gfapy.TypeError(
+      "Line: {}\n".format(self)+
+      "Item: {}\n".format(repr(item))+
+      "An oriented identifier (str or OrientedLine) is required")
 
   def _add_item_to_unconnected_group(self, item, append = True):
     if isinstance(item.line, gfapy.Line):
@@ -73,8 +75,11 @@ class References:
       self.items.insert(0, item)
 
   def _add_item_to_connected_group(self, item, append = True):
-    item.line = self.prepare_and_check_ref(item.line)
-    self._add_reference(item, "items", append = append)
+    item.line = self._new_item_line(item.line, "paths")
+    if append:
+      self.items.append(item)
+    else:
+      self.items.insert(0, item)
 
   def _initialize_references(self):
     self._check_items_not_self()
